@@ -18,7 +18,8 @@ un <floor|ceil|round|sqrt|abs> <bits> -> <bits> | nan
 ```
 `pol=a`: process execution allowed (only `/bin/true`, `/bin/false`, `echo` are known to the model's
 `runProc`); `pol=d`: denied.  The model runs with `lookup := dynamic` (an extra head field
-`lookup=lexical` selects the lexical reference mode), the given plan, `panics := true`.
+`lookup=lexical` selects the lexical reference mode), the given plan, `panics := false` (the current
+code: the D-06/D-04 sites are runtime errors; `panics=pinned` replays the originally pinned tree).
 -/
 namespace NaijaVerif.Driver.RunD
 open NaijaVerif NaijaVerif.Driver NaijaVerif.Eval NaijaVerif.Driver.FloatOps
@@ -71,9 +72,12 @@ def parsePlan (s : String) : Option (Option Plan) :=
 def fuel : Nat := 100000
 
 def siteLoc (site : PanicSite) : String :=
-  match Gen.PanicSites.fileOf site.label, Gen.PanicSites.lineOf site.label with
-  | some f, some l => s!"{Bytes.toString f}:{l}"
-  | _, _ => s!"?{Bytes.toString site.label}"
+  match site.srcLabel with
+  | some lbl =>
+    match Gen.PanicSites.fileOf lbl, Gen.PanicSites.lineOf lbl with
+    | some f, some l => s!"{Bytes.toString f}:{l}"
+    | _, _ => s!"?{Bytes.toString lbl}"
+  | none => "?fixed-site"
 
 def outStr (vs : List (Value Float)) : String :=
   if vs.isEmpty then "none" else ",".intercalate (vs.map (fun v => hex v.display))
@@ -86,7 +90,7 @@ def answerRun (head ast : String) : String :=
     match parsePlan ((plan.drop 5).toString), AstIO.readBlock ast with
     | some pl, some blk =>
       let cfg : RunCfg :=
-        { lookup := mode, plan := pl, panics := true,
+        { lookup := mode, plan := pl, panics := more.contains "panics=pinned",
           policy := { allow := pol == "pol=a", caps := defaultCaps },
           runProc := runProcStub, std := stdOps, input := [] }
       match (run cfg fuel blk : Outcome Float) with
